@@ -18,6 +18,9 @@ type Spec struct {
 	Callers [][]Op         `json:"callers"` // one op list per simulated caller goroutine
 	Policy  zzsimrt.Policy `json:"policy"`
 	MapSeed uint64         `json:"map_seed,omitempty"` // 0 = sorted map iteration; else seeded permutation per site and visit
+	// ColdPatterns: the document was validated with pattern validation disabled,
+	// so every pattern is first compiled among the concurrent calls.
+	ColdPatterns bool `json:"cold_patterns,omitempty"`
 }
 
 func petBody(r *simfw.RNG, m string, valid bool) string {
@@ -205,5 +208,6 @@ func Gen(seed uint64, tier string) *Spec {
 	if r.Chance(1, 3) {
 		s.MapSeed = r.Uint64() | 1
 	}
+	s.ColdPatterns = r.Bool()
 	return s
 }
